@@ -746,6 +746,10 @@ fn c08_shaped(k: u64, rng: &Rng) -> File {
         f.body = Some(b.st(S::Block { unchecked: false, stmts }));
         parts.push(Part::Func(f));
     }
+    // members in any order: writers above the constructor, variables declared below their uses
+    if rng.chance(1, 2) {
+        rng.shuffle(&mut parts);
+    }
     c.parts = parts;
     let base_name = c.name.clone();
     items.push(Item::Contract(c));
